@@ -7,6 +7,7 @@ import (
 	"fmt"
 	"os"
 	"path/filepath"
+	"strconv"
 	"strings"
 	"testing"
 
@@ -181,6 +182,19 @@ func replayProp[C any](t *testing.T, id, path string, exec func(*testing.T, C) *
 	_ = os.WriteFile(filepath.Join(workDir(), fmt.Sprintf("current-%s-%s.json", id, workerTag())), raw, 0o644)
 	v1 := exec(t, c)
 	v2 := exec(t, c)
+	if n, _ := strconv.Atoi(os.Getenv("VERIF_REPLAY_ATTEMPTS")); n > 0 {
+		// The recorded violation was nondeterministic (the outcome of the same
+		// case and schedule varies): any failing attempt reproduces it.
+		for i := 0; i < n && v1 == nil; i++ {
+			v1 = exec(t, c)
+		}
+		if v1 != nil {
+			fmt.Printf("REPLAY-RESULT property=%s reproduced=true class=%s nondeterministic=true\n  detail: %s\n", id, v1.Class, v1.Detail)
+			t.Fail()
+			return
+		}
+		v2 = nil
+	}
 	switch {
 	case v1 == nil && v2 == nil:
 		fmt.Printf("REPLAY-RESULT property=%s reproduced=false (no violation on this tree)\n", id)
